@@ -47,7 +47,7 @@ def graph(f):
                 r = _root_ident(f, cb)
                 if r is not None:
                     out.add(r.id)
-            elif fn.get("trait") and fn.get("krate") == crate:
+            if fn.get("trait") and fn.get("krate") == crate and not fn.get("resolved"):
                 tr = fn["trait"].split("::")[-1]
                 for c in by_name.get(fn["name"], []):
                     th = c.trait_head or ""
